@@ -1,6 +1,7 @@
 import MorfuseModel.Archive.Sample
 import MorfuseModel.Archive.ValueRoundTrip
 import MorfuseModel.Archive.EqW
+import MorfuseModel.Archive.Dict
 /-!
 # C10 — archives round-trip values and object graphs faithfully
 
@@ -102,6 +103,38 @@ theorem C10_roundtrip_mixed (cfg : Cfg) (classes : List Bytes) (info : Info) (ws
     decodeW cfg classes info (schemaW ws) (encodeW info ws) = .ok ws :=
   decodeW_encodeW cfg classes info ws hw
 
+/-! ### constant strings and the dictionary of the loading session (`StringDictionary::ArchiveString`) -/
+
+/-- **Any reading dictionary.**  A ConstString value is archived by its text and interned on load into the
+    dictionary of the *loading* script context.  Whatever that dictionary `D` holds beforehand (nothing, the same
+    strings at other ids, other strings at the writer's ids): the load returns the sequence that was written,
+    every id `D` had keeps its text, and the `const_str` each loaded ConstString value received denotes — in the
+    dictionary after the load — exactly the text that was archived (`L.ids` in load order against
+    `constTextsW ws`). -/
+theorem C10_const_string_any_dictionary (cfg : Cfg) (classes : List Bytes) (info : Info) (ws : List WItem)
+    (hw : WFW cfg classes info ws) (D : Dict) :
+    ∃ L, decodeWD cfg classes info (schemaW ws) D (encodeW info ws) = .ok L ∧ L.items = ws ∧ D <+: L.dict ∧
+      L.ids.map L.dict.text = (constTextsW ws).map some :=
+  decodeWD_encodeW cfg classes info ws hw D
+
+/-- **Identity of constant strings.**  Two loaded constant strings are the same `const_str` iff their texts are
+    equal (script code compares constant strings by id), for every reading dictionary. -/
+theorem C10_const_string_identity (D : Dict) (texts : List Bytes) (i j : Nat) (hi : i < texts.length)
+    (hj : j < texts.length) :
+    (D.loadAll texts).2[i]? = (D.loadAll texts).2[j]? ↔ texts[i]? = texts[j]? :=
+  Dict.loadAll_ids_eq_iff texts D i j hi hj
+
+/-- **Ids of the loading session are stable.**  A text the loading dictionary already holds is given the id it
+    already has (so a loaded constant string equals the one compiled scripts use), and no id changes its text. -/
+theorem C10_dictionary_ids_stable (D : Dict) (texts : List Bytes) :
+    (∀ (k : Nat) (bs : Bytes), bs ∈ D → texts[k]? = some bs → (D.loadAll texts).2[k]? = some (D.idxOf bs + 1)) ∧
+    (∀ (i : Nat) (bs : Bytes), D.text i = some bs → (D.loadAll texts).1.text i = some bs) :=
+  ⟨fun k bs hm h => Dict.loadAll_known texts D k bs hm h, fun _ _ h => Dict.loadAll_keeps texts D h⟩
+
+/-- what `Get(text)` on the load side would do (the text is looked up, not interned): a constant string the
+    loading dictionary has not seen comes back as `const_str::None()` -/
+theorem C10_lookup_instead_of_intern_loses_text : (Dict.find [] [97]) = 0 ∧ Dict.text [] 0 = none := by decide
+
 /-- the unrepaired `ArchiveInternal` (`m_data.stringValue = new str(4)`): an empty String value comes back as
     the text "4" — replayed on the real code by corpus/C10/empty-string-value.json -/
 theorem C10_legacy_empty_string_value :
@@ -136,6 +169,15 @@ theorem sampleW_wf : WFW Cfg.fixed [[76]] sampleInfo sampleW where
 
 example : decodeW Cfg.fixed [[76]] sampleInfo (schemaW sampleW) (encodeW sampleInfo sampleW) = .ok sampleW :=
   C10_roundtrip_mixed _ _ _ _ sampleW_wf
+
+/-- loaded into a dictionary that holds another string at id 1 and the archived text "a" at id 2 -/
+example : ∃ L, decodeWD Cfg.fixed [[76]] sampleInfo (schemaW sampleW) [[120], [97]] (encodeW sampleInfo sampleW) = .ok L ∧
+    L.items = sampleW ∧ [[120], [97]] <+: L.dict ∧ L.ids.map L.dict.text = (constTextsW sampleW).map some :=
+  C10_const_string_any_dictionary _ _ _ _ sampleW_wf _
+
+example : constTextsW sampleW = [[97]] := by decide
+example : (Dict.loadAll [] [[97], [98], [97]]).2 = [1, 2, 1] := by decide
+example : (Dict.loadAll [[98]] [[97], [98], [97]]) = ([[98], [97]], [2, 1, 2]) := by decide
 
 
 example : decode Cfg.legacy [[76], [86]] sampleInfo (schemaOf sample) (encode sampleInfo sample) = .ok sample :=
